@@ -3415,6 +3415,8 @@ def broadcast_to(array: Array, shape: ShapeType) -> Array:
     """
     from pytato.utils import are_shape_components_equal, get_indexing_expression
 
+    shape = normalize_shape(shape)
+
     if len(shape) < array.ndim:
         raise ValueError(f"Cannot broadcast '{array.shape}' into '{shape}'")
 
